@@ -50,7 +50,7 @@ def register(R):
                              lambda c: b_of(c.rt) == S.stronger(c.pre, c.ref('self'), c.pre, c.ref('other'), b_of(c['if_equal'])))]))
     # same node on both sides (a node compared with itself)
     R.add(Contract(N + 'ConfigNode.ayns.has_priority_over', [node(), P.pyval('other', None), P.val('if_equal', 'bool')], name='alias',
-                   requires=_valid('self'), pure=True, opts={'verify_only': True, 'setup': _alias_other},
+                   requires=_valid('self'), pure=True, opts={'verify_only': True, 'setup': _alias_other, 'no_search': True},
                    ensures=[('C03.self-vs-self-is-if_equal', lambda c: b_of(c.rt) == b_of(c['if_equal']))]))
 
     # ---- gates -------------------------------------------------------------------------------
